@@ -158,8 +158,8 @@ func TestProp(t *testing.T) {
 		rep.Floor("longrun_raw_encrypts", lrCases*lrSeals)
 		rep.Floor("longrun_marshals", lrCases*lrSeals/3)
 		rep.Floor("store_sessions_cleared", env.Pick(600, 4000))
-		rep.Floor("store_csrf_read_back", env.Pick(800, 6000))
-		rep.Floor("store_targets_hit", env.Pick(450, 3000))
+		rep.Floor("store_csrf_read_back", env.Pick(600, 5000))
+		rep.Floor("store_targets_hit", env.Pick(350, 2500))
 		rep.Floor("callback_attempts", flows*100)
 		rep.Floor("callback_genuine_logins", flows)
 		rep.Floor("callback_state_is_reencoded_csrf_attempts", flows*3)
